@@ -39,7 +39,7 @@ ASSUMPTIONS = [
     "the scheduler does not model locks: cm_colors takes none; a stall is a HARNESS-ERROR, never a verdict",
     "text results embedding the sandbox path are normalised to <SBX>",
 ]
-PROBES = ["H_runs", "H_ops", "H_probes_after_change", "H_cli_ops", "H_bulk_ops", "H_show_save_ops", "H_slot_reuse", "H_repeat_same_op", "H_alias_family_ops", "H_bulk_position_probes", "H_cli_file_position_probes", "H_cli_rule_position_probes", "H_flood_ops", "H_heavy_distinct_fix_ops", "H_fed_back_result_ops", "H_host_warning_filter_windows", "H_ops_under_warnings_as_errors", "H_clock_jump_windows", "H_host_locale_C_windows", "T_runs_under_jumping_clock",
+PROBES = ["H_runs", "H_ops", "H_probes_after_change", "H_cli_ops", "H_bulk_ops", "H_show_save_ops", "H_slot_reuse", "H_repeat_same_op", "H_alias_family_ops", "H_bulk_position_probes", "H_cli_file_position_probes", "H_cli_rule_position_probes", "H_flood_ops", "H_aborted_bulk_ops", "H_heavy_distinct_fix_ops", "H_fed_back_result_ops", "H_host_warning_filter_windows", "H_ops_under_warnings_as_errors", "H_clock_jump_windows", "H_host_locale_C_windows", "T_runs_under_jumping_clock",
           "T_runs", "T_threads", "T_ops", "T_steps", "T_switches", "T_hot_line_hits", "T_switch_in_optimisation", "T_mode_different",
           "T_mode_same", "T_mode_shared_object", "T_runs_with_switch_inside_call", "T_shared_object_first_touch_in_threads", "P_runs", "P_ops", "P_interpreters", "P_interpreters_sharing_home_and_tmp", "H_cli_ops_over_an_already_processed_directory"]
 
@@ -286,6 +286,28 @@ def generate(rseed, tier, idx):
                 hs = gen.hsl_spelling(gen.rand_rgb(g))
                 ops.insert(g.randrange(len(ops) + 1), {"op": "color", "v": enc(hs), "alias": True})
         if g.random() < 0.25:
+            # an ABORTED bulk call (the caller's data source raises part-way, or an entry of the wrong arity stops the call
+            # with an exception after earlier entries were processed), and later the same pairs asked again one by one under
+            # OTHER settings: whatever a call sets up for its own duration must be gone when it ends by an exception
+            ab = []
+            for _ in range(g.randint(1, 3)):
+                bg = gen.rand_rgb(g)
+                trgb, _ = gen.pick_text(g, bg, 4.5, g.choice(("fix", "fix", "mid", "hard")))
+                ab.append([enc("#%02x%02x%02x" % trgb), enc("#%02x%02x%02x" % bg)])
+            m1, v1 = g.choice((0, 1, 1, 2)), g.random() < 0.4
+            bop = {"op": "bulk", "pairs": copy.deepcopy(ab), "mode": m1, "vr": v1, "aborted": True}
+            if g.random() < 0.5:
+                bop["container"] = "gen-raise"
+                bop["raise_at"] = len(ab)
+            else:
+                bop["pairs"].append([g.choice((ab[0][0], enc("#123456")))])  # one element: cannot be unpacked into (text, bg)
+            at = g.randrange(len(ops) + 1)
+            ops.insert(at, bop)
+            for t1, b1 in ab:
+                m2 = g.choice([m for m in (0, 1, 2) if m != m1])
+                ops.insert(g.randrange(at + 1, len(ops) + 1),
+                           {"op": "make", "t": t1, "b": b1, "large": False, "mode": m2, "vr": (not v1) if g.random() < 0.5 else v1, "alias": True})
+        if g.random() < 0.25:
             # the HOST changes process-wide interpreter settings between calls (a test runner or an application that turns
             # warnings into errors, python -W error): a window of pure operations runs under that setting
             pos = g.randrange(len(ops) + 1)
@@ -379,7 +401,7 @@ def run_cli_op(op):
 
 
 def _run_any(op, ctx, root):
-    sop = {k: v for k, v in op.items() if k not in ("again", "alias", "flood", "heavy", "t_from_op")}
+    sop = {k: v for k, v in op.items() if k not in ("again", "alias", "flood", "heavy", "aborted", "t_from_op")}
     if sop["op"] == "cli":
         return run_cli_op(sop)
     with apiops.Effects(root) as fx:
@@ -490,7 +512,7 @@ def _exec_H(trace):
         if op.get("t_from_op") is not None and returned.get(op["t_from_op"]) is not None:
             op["t"] = returned[op["t_from_op"]]  # the colour the earlier call returns in a pristine process
             bump("H_fed_back_result_ops")
-        sop = {k: v for k, v in op.items() if k not in ("again", "alias", "flood", "heavy", "t_from_op")}
+        sop = {k: v for k, v in op.items() if k not in ("again", "alias", "flood", "heavy", "aborted", "t_from_op")}
         if sop["op"] == "env":
             expect.append((sop, None))
             continue
@@ -598,6 +620,8 @@ def _exec_H(trace):
                 bump("H_alias_family_ops")
             if op.get("flood"):
                 bump("H_flood_ops")
+            if op.get("aborted") and "exc" in r:
+                bump("H_aborted_bulk_ops")
             if op.get("heavy"):
                 bump("H_heavy_distinct_fix_ops")
             if changed_seen:
@@ -673,7 +697,7 @@ def _exec_H(trace):
             _locale.setlocale(_locale.LC_ALL, saved_locale)
         base.rm_tree(root)
     return {"violations": vio, "digest": base.digest(events), "nontrivial": nontrivial, "stats": stats, "steps": stats.get("H_ops", 0),
-            "measures": {"distinct_histories(op lists)": base.digest([{k: v for k, v in o.items() if k not in ("again", "alias", "flood", "heavy", "t_from_op")} for o in trace["ops"]])}}
+            "measures": {"distinct_histories(op lists)": base.digest([{k: v for k, v in o.items() if k not in ("again", "alias", "flood", "heavy", "aborted", "t_from_op")} for o in trace["ops"]])}}
 
 
 def _brief(op):
